@@ -151,14 +151,23 @@ class _Handle:
                 body = project_body(self.body_root)
             except Exception:   # noqa: BLE001
                 body = []
-            return {"body": body, "rd": {"frame": [UNKNOWN], "paras": [[UNKNOWN] for _ in body], "runs": [[] for _ in body]}}
+            return {"body": body, "rd": {"frame": [UNKNOWN], "paras": [[UNKNOWN] for _ in body], "runs": [[] for _ in body]},
+                    "rdk": [[UNKNOWN] for _ in body]}
 
     def _observe(self) -> dict:
         paras = self.tf.paragraphs
+        if getattr(self, "kept", None) is None:
+            # an object with a life: the text frame a caller obtained once (after the prior body was built) and keeps reading through
+            self.kept = self.holder.text_frame
+        try:
+            rdk = [classify(p.text) for p in self.kept.paragraphs]
+        except Exception:       # noqa: BLE001
+            rdk = [[UNKNOWN]]
         return {"body": project_body(self.body_root),
                 "rd": {"frame": classify(self.read_frame()),
                        "paras": [classify(p.text) for p in paras],
-                       "runs": [[classify(r.text) for r in p.runs] for p in paras]}}
+                       "runs": [[classify(r.text) for r in p.runs] for p in paras]},
+                "rdk": rdk}
 
     def apply(self, a: dict, s: str | None):
         from pptx.enum.text import PP_ALIGN
